@@ -61,7 +61,12 @@ def find_starting_node_from_spec(topology, start_nodes):
             topology.molecules[mol_idx].root = node
         else:
             for idx, molecule in enumerate(topology.molecules):
-                if molecule.mol_name == res_spec['molname']:
+                if 'molname' not in res_spec:
+                    # neither name nor index: every molecule that has such a residue
+                    nodes = list(_find_nodes(molecule, res_spec))
+                    if nodes:
+                        start_dict[idx] = nodes[0]
+                elif molecule.mol_name == res_spec['molname']:
                     node = list(_find_nodes(molecule, res_spec))[0]
                     start_dict[idx] = node
     return start_dict
